@@ -92,3 +92,19 @@ add("C16", "model_checking",
     "Guard on: for workers 1..4 (quick) / 1..6 (thorough) and lengths {0,1,W-1,W,W+1,2W+1,4W+3} on integer and cancellation-prone data, shuttle enumerates every schedule (1/5/44/550/... per configuration); the set of results over all schedules must be a singleton, exact on integer data, and the enumeration is repeated to prove the explorer owns every choice. Guard off: every worker count 1..16 obtained through CPU affinity (num_cpus::get() asserted) x every length 0..200: bit-identical to dot and to an exact i128 product on integer data, within the reassociation bound and bit-identical across repeated calls otherwise.",
     "Trusted: shuttle 0.9.3 as scheduler (scoped threads, join, Mutex/atomics if a rewrite introduces them are interception points). Unsynchronised unsafe sharing would be invisible to a cooperative scheduler. Worker counts above the CPUs available cannot be swept.",
     "DESIGN.md section 6 C16")
+
+add("C17", "model_checking",
+    "stateless depth-first exploration of all answer scripts of the user closure (deviation-bounded) + exhaustive family x guess x tolerance x iteration-limit lattices with an exact Newton reference",
+    "Termination half: for all six solve / solve_jacobian entry points, max_iter 0..3 and three base functions (root-free, non-differentiable, ordinary) every script that replaces the closure's answer at any call position by 0, NaN, +inf, 1e300 or the negated value is executed, up to 1 (quick) / 2 (thorough) deviations, each twice: the call returns, evaluations <= 3 (scalar) / n+2 per iteration, root-free => Err, identical observations. Convergence half: 11 real scalar, 5 complex scalar families and real/complex systems of dimension 1..6 with guesses across a conservative basin, 5 tolerances, 7 iteration limits: Ok => near the analytic root, enough iterations => Ok, Err carries the max_iter-th Newton iterate, max_iter 0 => Err(guess) bit for bit, parameters() unchanged.",
+    "Trusted: analytic roots/derivatives of the families, the harness' own Newton reference and dense LU. Closures outside the families and scripts with more deviations are not covered.",
+    "DESIGN.md section 6 C17")
+add("C18", "exploration",
+    "exhaustive enumeration of shapes, dyadic affine maps, points and steps with a call log of the user closure",
+    "Every shape (m,n) in 1..6 x 1..6, two dyadic matrices and each of their single-entry deviations, every point of a 5-letter lattice (all for n<=3), every step 2^-4..2^-26 and 1e-8, real and complex entry points: the Jacobian has exactly m rows and n columns, equals M bit for bit for dyadic steps, and the logged evaluation points are x, x + delta e_0, x + delta e_1, ... with every other coordinate restored; smooth maps within 10 delta max|F''|.",
+    "Trusted: exactness argument for dyadic data (all products/sums fit 53 bits).",
+    "DESIGN.md section 6 C18")
+add("C19", "model_checking",
+    "exhaustive enumeration of spacing words / node counts + explicit-state BFS over write histories (object rebuilt by replay), map model",
+    "1-D meshes with every spacing word over {1/4,1/2,1,2} for 2..6 nodes, deviation-bounded words for 7..12 nodes and a non-dyadic family: every access path, interpolation at every node and at interior points of every cell, trapezium = cell sum and exact on linear data, output->read round trip; 2-D meshes over all node-count pairs 2..5: both cross-section orientations, var_as_matrix, apply, assign, trapezium/square_trapezium, exact on bilinear data. BFS over set/index-write/assign/apply histories on 2x3 and 3x2 meshes.",
+    "Trusted: integer-valued / dyadic nodal data make f64 results exact on power-of-two grids. Interpolation is never probed within 1e-6 of a node except at it.",
+    "DESIGN.md section 6 C19")
